@@ -1,4 +1,7 @@
 use crate::util::Ctx;
+pub mod c03;
+pub mod c04;
+pub mod c05;
 pub mod c12;
 pub mod c15;
 pub mod c16;
@@ -6,6 +9,9 @@ pub mod c20;
 
 pub fn dispatch(ctx: &Ctx) -> i32 {
     match ctx.id.as_str() {
+        "C03" => c03::run(ctx),
+        "C04" => c04::run(ctx),
+        "C05" => c05::run(ctx),
         "C12" => c12::run(ctx),
         "C15" => c15::run(ctx),
         "C16" => c16::run(ctx),
